@@ -829,8 +829,11 @@ func cmdQuery(ss *serverSession) {
 
 func cmdReadCount(ss *serverSession) {
 	ss.sc.checkAuth()
-	ss.getTran()
-	ss.PutBool(true).PutInt(0) //TODO
+	n := 0
+	if tran, _ := ss.getTran(); tran != nil {
+		n = tran.ReadCount()
+	}
+	ss.PutBool(true).PutInt(n)
 }
 
 func cmdRewind(ss *serverSession) {
@@ -899,8 +902,11 @@ func cmdUpdate(ss *serverSession) {
 
 func cmdWriteCount(ss *serverSession) {
 	ss.sc.checkAuth()
-	ss.getTran()
-	ss.PutBool(true).PutInt(0) //TODO
+	n := 0
+	if tran, _ := ss.getTran(); tran != nil {
+		n = tran.WriteCount()
+	}
+	ss.PutBool(true).PutInt(n)
 }
 
 type command func(ss *serverSession)
